@@ -325,7 +325,7 @@ def nuc_p(msg: str) -> tuple[int, None | float, None | int, None | int]:
     """
     tc = typecode(msg)
 
-    if tc is None or tc < 5 or tc is None or tc > 22:
+    if tc is None or tc < 5 or tc == 19 or tc > 22:
         raise RuntimeError(
             "%s: Not a surface position message (5<TC<8), \
             airborne position message (8<TC<19), \
@@ -399,7 +399,7 @@ def nic_v1(msg: str, NICs: int) -> tuple[int, None | float, None | float]:
         int or string: Vertical Protection Limit
     """
     tc = typecode(msg)
-    if tc is None or tc < 5 or tc > 22:
+    if tc is None or tc < 5 or tc == 19 or tc > 22:
         raise RuntimeError(
             "%s: Not a surface position message (5<TC<8), \
             airborne position message (8<TC<19), \
@@ -437,7 +437,7 @@ def nic_v2(msg: str, NICa: int, NICbc: int) -> tuple[int | None, int | None]:
         int or string: Horizontal Radius of Containment
     """
     tc = typecode(msg)
-    if tc is None or tc < 5 or tc > 22:
+    if tc is None or tc < 5 or tc == 19 or tc > 22:
         raise RuntimeError(
             "%s: Not a surface position message (5<TC<8), \
             airborne position message (8<TC<19), \
